@@ -62,12 +62,44 @@ NEEDS2 = {
  "C18_a": "thread-local one-entry cache of the last sinc table with the cutoff keyed as (f_cutoff*1e6) as u32: an instance built right after another on the same thread with a cutoff in the same 1e-6 bucket reuses the other table",
  "C18_b": "process-wide Mutex around the FFT filter generation: a constructor call that panics inside it (absurd co-prime rates, capacity overflow) poisons it and every later FFT constructor on any thread panics",
 }
+NEEDS3 = {
+ "C03_a": "VecResampler forwarder for process_partial_into_buffer passes None instead of the caller's mask on the flush arm: a flush through Box<dyn VecResampler> with an inactive channel whose output buffer is short or empty returns Err",
+ "C03_b": "FftFixedIn collects active channel indices into an unguarded [0usize; 32]: more than 32 active channels panic",
+ "C04_a": "SincFixedIn::output_frames_max() uses the current instead of the construction-time chunk size: the advertised maximum shrinks after set_chunk_size(small)",
+ "C04_b": "FftFixedOut::input_frames_max() routed through the helper for the *next* call: the maximum follows saved_frames mid-life",
+ "C05_a": "nearest sub-filter grid point narrowed to i32: saturates once read position * oversampling_factor reaches 2^31 (SincFixedOut, ratio 1/300, factor 4096, chunk 4096 vs 4 x 1024)",
+ "C05_b": "SincFixedIn finishes a ramp only `if n > 0`: a ramped change followed by a call that produces 0 frames leaves the ramp pending, stretched over the next call's (different) chunk size",
+ "C06_a": "FastFixedOut re-anchors the running position every 8192 output frames with k(k-1)/2 instead of k(k+1)/2: chunk >= 8192 and a ramped change",
+ "C06_b": "oversampled grid point cast to i32 saturates when position * oversampling_factor >= 2^31 (chunk 2^20, factor 4096): instants stop increasing",
+ "C07_a": "FastFixedIn floors the carried read position to 20 fractional bits: < 1e-6 frame per call, leaves the bound after 23 million 1-frame calls",
+ "C07_b": "FftFixedInOut computes the gcd of the rates after casting to u32: rates >= 2^32 with a common factor of ~2^30 (7*2^30 : 3*2^30) get the wrong blocks",
+ "C09_a": "validate_buffers gathers active channel indices into [usize; 64] and falls back to a Vec above 64 channels",
+ "C09_b": "SincFixedOut sizes its buffer with max_relative.min(64) and resizes on demand: max_relative > 64 and a ratio below 1/65 of the original",
+ "C10_a": "SincFixedOut::reset computes ceil(last_index + chunk/ratio + sinc_len) instead of ceil(chunk/ratio) + sinc_len/2: differs when chunk/ratio is an integer plus one ulp and the sum crosses a binade (ratio 0.7, chunk 714)",
+ "C10_b": "FastFixedOut::reset ceil(chunk/ratio + 4) instead of ceil(chunk/ratio) + 4: same class (ratio 1.4, chunk 2863)",
+ "C11_a": "SincFixedIn cubic skips three of four sinc products when frac == 0 and multiplies the stale shared points by zero: 0 * inf = NaN lets another channel's non-finite products into this channel",
+ "C11_b": "FftFixedIn halves the wanted sub-chunk until wanted * channels <= 2^18: block length depends on the channel count",
+ "C12_a": "SincFixedIn::set_resample_ratio gets a 'step must fit the history' guard: the exact lower bound is rejected when max/original is an integer k with fl(1/fl(1/k)) > k (49, 98, 103, 107, ...)",
+ "C12_b": "SincFixedOut::set_chunk_size narrows the request with `as u32` before the range check: 2^32 + 1 is accepted as 1",
+ "C13_a": "validate_buffers tracks short input channels in a u64 bitmap: > 64 channels and a short channel of index >= 64 panic (shift overflow) / report the wrong channel",
+ "C13_b": "SincFixedIn counts consecutive rejected calls into a three-entry log-throttle table: the 101st rejected call in a row panics",
+ "C15_a": "AVX f32 skips 8-sample blocks that compare equal to zero with an ordered predicate: a NaN inside digital silence is swallowed",
+ "C15_b": "AvxInterpolator::new alone clamps f_cutoff to 1.0: relative cutoffs above 1 give a different table than scalar/SSE",
+ "C16_a": "default process_partial_into_buffer returns (input_frames_next, frames_out) instead of the core call's tuple: visible only for an implementor that consumes less than input_frames_next",
+ "C16_b": "VecResampler builds *_buffer_allocate from make_buffer instead of forwarding: visible only for an implementor that overrides the allocation helpers",
+ "C17_a": "FftFixedIn raises sub_chunks by a byte-size heuristic: f64 splits the FFT above 32768 frames, f32 above 65536",
+ "C17_b": "make_interpolator clamps the oversampling factor when the table exceeds 16 MiB: only the f64 twin between 2 Mi and 4 Mi points",
+ "C18_a": "an AVX 'sanity check' in make_interpolator sets a process-wide never-cleared flag when a resampler with effective f_cutoff > ~1.4 is constructed: later sinc resamplers in the process use SSE",
+ "C18_b": "FFT 'denormal clean-up' zeroes tiny overlap values on every 65536th unit counted by a process-wide static counter",
+}
 ROUND = int(os.environ.get('SEEDED_ROUND', '1'))
 if ROUND == 2:
     NEEDS = NEEDS2
-SRC_ROOT = '/tmp/seeded-out' if ROUND == 1 else '/tmp/seeded2-out'
-LOGS = ['/tmp/seeded-results.log'] if ROUND == 1 else ['/tmp/seeded2-baseline.log', '/tmp/seeded2-new.log', '/tmp/seeded2-thorough.log']
-PREFIX = '' if ROUND == 1 else 'R2_'
+if ROUND == 3:
+    NEEDS = NEEDS3
+SRC_ROOT = {1: '/tmp/seeded-out', 2: '/tmp/seeded2-out', 3: '/tmp/seeded3-out'}[ROUND]
+LOGS = {1: ['/tmp/seeded-results.log'], 2: ['/tmp/seeded2-baseline.log', '/tmp/seeded2-new.log', '/tmp/seeded2-thorough.log', '/tmp/seeded2-final.log'], 3: ['/tmp/seeded3-new.log', '/tmp/seeded3-thorough.log', '/tmp/seeded3-final.log']}[ROUND]
+PREFIX = {1: '', 2: 'R2_', 3: 'R3_'}[ROUND]
 res = {}
 cur = None
 import itertools
@@ -98,7 +130,7 @@ for key in sorted(NEEDS):
     runs = r.get('runs', [])
     final = runs[-1] if runs else {'verdict': 'NOT-RUN', 'detail': ''}
     meta = {
-        "id": PREFIX + key, "round": ROUND, "breaks_property": p, "author": "independent sub-agent (saw only the property text and a scratch worktree" + ("; round 2 was asked for changes that ~1e5 random call histories are unlikely to hit)" if ROUND == 2 else ")"),
+        "id": PREFIX + key, "round": ROUND, "breaks_property": p, "author": "independent sub-agent (saw only the property text and a scratch worktree" + ("; rounds 2 and 3 were asked for changes that ~1e5 random call histories are unlikely to hit)" if ROUND >= 2 else ")"),
         "needs_to_manifest": NEEDS[key],
         "confirmation": r.get('confirm', ''),
         "what_was_run": [
@@ -113,7 +145,7 @@ for key in sorted(NEEDS):
     json.dump(meta, open(f"{dst}/meta.json", "w"), indent=1)
     clause = re.search(r'clause=([\w<>=!\-]+)', final.get('detail', ''))
     rows.append((PREFIX + key, p, ' / '.join(f"{r.get('stage','').replace('seeded2-','').replace('seeded-results','run')}:{r['verdict']}" for r in runs) or 'NOT-RUN', clause.group(1) if clause else '', len(runs), NEEDS[key]))
-with open('/verif/seeded/RESULTS.md' if ROUND == 1 else '/verif/seeded/RESULTS_round2.md', 'w') as f:
+with open({1: '/verif/seeded/RESULTS.md', 2: '/verif/seeded/RESULTS_round2.md', 3: '/verif/seeded/RESULTS_round3.md'}[ROUND], 'w') as f:
     f.write("# Independent seeded changes (one sub-agent per property, two variants each)\n\n")
     f.write("Each change compiles, passes the 96 existing tests, and has a demonstration that fails with it and passes without it (confirmed in a scratch worktree). `check runs` counts how often the target check was run against it (a second run follows a strengthening of the check, see DESIGN.md section 13).\n\n")
     f.write("| id | property | quick check verdict | first clause | check runs | needs |\n|---|---|---|---|---|---|\n")
